@@ -22,7 +22,7 @@ def route(V, path, r, what):
                 small["dates_around"] = e["dates"][max(0, p - 3):p + 2]
         case = {"engine": "named", "event": e, "module": "Trace_Fixings" if e["op"] == "fix" else "Trace_NamedCal",
                 "env": {"MEMBERS": MEMBERS_PATH[0]}}
-        V.add(key, "%s rejected by NamedCal.tla (%s): %s" % (e["op"], v["name"], json.dumps(small)[:600]), case)
+        V.add(key, "%s rejected by NamedCal.tla (%s): %s" % (e["op"], v["name"], json.dumps(small)[:600]), case, src=path)
         n += 1
     return n
 
